@@ -69,6 +69,10 @@ def C01(c):
     c.corr("rnp-6plus", big, combos_of(["list"], [PT]), judge=judge)
 
 
+def _is_timeout(x):
+    return isinstance(x, dict) and x.get("error") == "Timeout"
+
+
 def judge_named(judge):
     """run a judge written for list input (names = values) on a named answer: the names are replaced by their values first"""
     def j(case, fmt, ot, got, names, ans):
@@ -530,6 +534,9 @@ def C06(c):
         for case in sel:
             full = next(res)
             rest = [next(res) for _ in SUMS_ONLY]
+            if _is_timeout(full) or any(_is_timeout(r_) for r_ in rest):
+                c.call_timeouts += 1        # a resource limit is never a verdict
+                continue
             if J._is_err(full) or J._is_none(full) or not isinstance(full, dict) or "sums" not in full:
                 continue
             for ot, got in zip(SUMS_ONLY, rest):
@@ -574,6 +581,9 @@ def C07(c):
             if fmt == "list":
                 ref = got
                 continue
+            if _is_timeout(got) or _is_timeout(ref):
+                c.call_timeouts += 1        # a resource limit is never a verdict (and never an agreement)
+                continue
             if case["alg"] == "dp" and isinstance(got, list) and isinstance(ref, list):
                 ok = obj_value(case["p"]["obj"], got) == obj_value(case["p"]["obj"], ref)   # any optimal record (DESIGN §3)
             else:
@@ -589,6 +599,9 @@ def C07(c):
     ures = iter(impl_map(utasks))
     for case in ucases:
         ref, got = next(ures), next(ures)
+        if _is_timeout(got) or _is_timeout(ref):
+            c.call_timeouts += 1
+            continue
         if case["alg"] == "dp" and isinstance(got, list) and isinstance(ref, list):
             ok = obj_value(case["p"]["obj"], got) == obj_value(case["p"]["obj"], ref)
         else:
@@ -790,7 +803,7 @@ def C10(c):
     c.corr("exhaustive", ex, combos_of(["list"], [PT]), judge=judge)
     c.exhaustive_scopes.append(f"all multisets of <= {c.n(5,6)} values from 1..B+2, B in {c.n([6],[6,12])}")
     c.corr("random", C.random_cover_cases(rng, C.COVERS, c.n(300, 3000), nmax=c.n(11, 13)), combos_of(["list"], [PT]), judge=judge)
-    c.corr("random-named", C.random_cover_cases(rng, C.COVERS, c.n(150, 1500), nmax=c.n(11, 13)), combos_of(["dict_str", "array_valueof", "array", "uarray"], [PT]), judge=judge_named(judge))
+    c.corr("random-named", C.random_cover_cases(rng, C.COVERS, c.n(150, 450), nmax=c.n(11, 13)), combos_of(["dict_str", "array_valueof", "array", "uarray"], [PT]), judge=judge_named(judge))
     planted = []
     for _ in range(c.n(100, 1000)):
         B = rng.choice([12, 20, 100, 1000])
@@ -916,7 +929,10 @@ def C20(c):
         for sums in seq:
             srt = rng.random() < 0.4
             v = sorted(sums) if srt else list(sums)
-            got = num(ob.value_to_minimize(_seq_as(rng.choice(["list", "tuple", "array", "uarray"]), v), are_sums_in_ascending_order=srt))
+            try:
+                got = num(ob.value_to_minimize(_seq_as(rng.choice(["list", "tuple", "array", "uarray"]), v), are_sums_in_ascending_order=srt))
+            except Exception as ex:      # noqa
+                got = {"error": exc_name(ex)}
             hist.append(v)
             c.check_direct("objective.value_to_minimize", {"vals": v, "obj": o, "sorted": int(srt), "earlier_calls_on_the_same_object": list(hist[:-1])},
                            "documented-quantity-after-earlier-calls", got == obj_value(o, sums), got, f"documented function of the sums: {obj_value(o, sums)}")
@@ -925,7 +941,10 @@ def C20(c):
         n = len(sums)
         for o in ["maxmin", "minmax", "diff", f"ksmall:{rng.randint(1, n + 2)}", f"klarge:{rng.randint(1, n + 2)}"]:
             sh = list(sums); rng.shuffle(sh)
-            got = num(objective_impl(o).value_to_minimize(_seq_as(rng.choice(["list", "tuple", "array", "uarray"]), sh)))
+            try:
+                got = num(objective_impl(o).value_to_minimize(_seq_as(rng.choice(["list", "tuple", "array", "uarray"]), sh)))
+            except Exception as ex:      # noqa
+                got = {"error": exc_name(ex)}
             want = obj_value(o, sums)
             c.check_direct("objective.value_to_minimize", {"vals": sh, "obj": o}, "documented-quantity", got == want, got,
                            f"documented function of the sums: {want}")
@@ -2197,8 +2216,10 @@ def C18(c):
             c.evaluations += 1
             c.stats["agreement"]["calls"] += 1
             label = dict(g["p"], vals=g["vals"], alg=g["alg"], objective=o)
+            c.stats["agreement"]["calls:" + g["alg"]] += 1
             if J._is_err(got) and got["error"] == "Timeout":
                 c.stats["agreement"]["call-timeouts (not judged)"] += 1
+                c.stats["agreement"]["call-timeouts:" + g["alg"]] += 1
                 continue
             if J._is_err(got) or J._is_none(got):
                 c.check_direct(g["alg"], label, "exception:" + str(got.get("error", "none")), False, got, "a partition")
@@ -2216,6 +2237,12 @@ def C18(c):
                 if a not in EXACT:
                     c.check_direct(a, {"vals": grp[0]["vals"], "k": grp[0]["p"]["k"], "alg": a, "objective": o}, "heuristic-beats-exact", ref <= v, v,
                                    f"no heuristic can beat the exact optimum {ref}")
+    # these groups are beyond the oracle's size on purpose, so an occasional call that exceeds its limits is tolerated (and listed in the
+    # evidence); an algorithm that exceeds them on more than a fifth of its calls is not: then nothing was compared, which is not a pass
+    for a_ in ("cg", "ckk", "snp", "rnp", "dp", "ilp"):
+        t_, n_ = c.stats["agreement"].get("call-timeouts:" + a_, 0), c.stats["agreement"].get("calls:" + a_, 0)
+        if t_ > max(2, n_ // 5):
+            c.call_timeouts += t_
     c.distinct.update(("agree", tuple(g[1][0]["vals"]), g[0]) for g in agree)
     c.nontrivial.update(("agree", tuple(g[1][0]["vals"]), g[0]) for g in agree)
 
@@ -2294,7 +2321,8 @@ def C15(c):
         ot = rng.choice(OUTTYPES)
         names = names_for(fmt, e["vals"], random.Random(sha([e["vals"], fmt])))
         calls.append((e, fmt, ot, names))
-    # reference: every call in a fresh worker process state (forked before this process runs any history)
+    # reference: every call in a worker process forked before this process runs any history (the workers are re-used between calls: the
+    # reference is 'another history', the model's answer below is the state-free one)
     ref = impl_map(calls, serial_below=0)
     # model answers for the modelled calls
     lines, idx = [], {}
@@ -2414,7 +2442,7 @@ def replay(c, rp):
     case = rp.get("case") or {}
     if case.get("alg") in ALGS and "vals" in case and set(ALGS[case["alg"]].param) <= set("kB") and ALGS[case["alg"]].param in case.get("p", {}):
         fmt, ot = rp.get("fmt", "list"), rp.get("outtype", PT)
-        fmt = fmt if fmt in FORMATS else "list"
+        fmt = fmt if fmt in FORMATS + ["uarray"] else "list"
         ot = ot if ot in OUTTYPES else PT
         kind_ = ALGS[case["alg"]].kind
 
